@@ -171,6 +171,10 @@ var profC02 = profile{
 		}
 		c.LockAfter = rapid.IntRange(3, 6).Draw(t, "lockafter2")
 		c.EmailAuth = false
+		if c.UpstreamLookup == 0 && chance(t, "datainjector", 25) {
+			// the sample application's data injector: every request has its user loaded into the context up front
+			c.UpstreamLookup = 2
+		}
 		// make sure at least two accounts have a factor of a module that is set up
 		n := 0
 		for i := range c.Accounts {
